@@ -14,6 +14,8 @@ def run(ctx):
     ctx.rule("R10.4", "each PrioritySender field is the sending end of the same-named PriorityReceiver field's channel; "
                       "PrioritySender::send maps each Priority to the same-named queue")
     ctx.rule("R10.5", "PriorityReceiver::recv has a single consumer (the job task) and handlers never re-queue")
+    ctx.rule("R10.6", "a ticket resolves only through its flags: Ticket shares the control's own completion flag and the job-gone flag (shared with R07.6), and "
+                      "Flag::poll answers Ready only after loading the flag as set (shared with R07.4) - so a resolved last ticket implies its control ran or the job ended")
     try:
         B = jobtask.Bodies(ctx, "R10.1")
         jobrules.recv_order(ctx, B)
@@ -23,6 +25,11 @@ def run(ctx):
     for fn in (jobrules.send_order, jobrules.channel_pairing):
         try:
             fn(ctx)
+        except Skip:
+            pass
+    for fn in (jobrules.ticket_shape, jobrules.wake_protocol):
+        try:
+            fn(ctx, "R10.6")
         except Skip:
             pass
     try:
